@@ -85,7 +85,7 @@ FamilyProps(fam) ==
       [] fam = "lin" -> {"C20", "C13", "C06", "C08", "C19"}
       [] fam = "bil" -> {"C20", "C13", "C06", "C08", "C19"}
       [] fam = "spl" -> {"C13", "C06", "C08"}
-      [] fam = "out" -> {"C17", "C09"}
+      [] fam = "out" -> {"C17", "C09", "C19"}
       [] fam = "outc" -> {"C13"}
       [] fam = "err" -> {"C19"}
       [] fam = "errbuf" -> {"C19"}
@@ -299,7 +299,7 @@ JudgeLinElem(o, lane, qb, q, obsb) ==
                  inr == InRange(o.x, q)
              IN [ok |-> good,
                  class |-> IF ~inr THEN "extrap" ELSE IF q = o.x[i] \/ q = o.x[i + 1] THEN "knot" ELSE "inner",
-                 props |-> IF inr THEN {"C01"} ELSE {"C06"},
+                 props |-> (IF inr THEN {"C01"} ELSE {"C06"}) \cup (IF Has(o, "poly") THEN {"C16"} ELSE {}),
                  ref |-> ref, bracket |-> i, pm |-> IF IsFin(obs) THEN PerMille(QAbs(QSub(obs, ref)), tol) ELSE 1000000,
                  memo |-> {<<"lin", key, obsb>>}]
 
